@@ -48,6 +48,16 @@ pub fn tgt_f(a: i32, out: &mut i32) {
     *out = std::hint::black_box(a - 6000);
 }
 
+#[inline(never)]
+pub extern "C" fn tgt_g(a: i32) -> i32 {
+    std::hint::black_box(a - 7000)
+}
+#[inline(never)]
+pub extern "C" fn tgt_h(a: i32) -> i32 {
+    std::hint::black_box(a - 8000)
+}
+static PAIR_N: [AtomicUsize; 4] = [const { AtomicUsize::new(0) }; 4];
+
 /// second functions of the same shapes: the fake built by one source line may be installed on a different
 /// function in a later lifetime
 #[inline(never)]
@@ -541,6 +551,153 @@ pub fn run_c06(ctx: &Ctx) {
                 std::process::exit(75);
             }
             out::outcome(idx, &class, if sig.is_empty() { Verdict::Held } else { Verdict::Violated }, &sig, &J::new().n("N", n).s("exit", &dres.err().unwrap_or_else(|| "no-panic".into())));
+        }
+    }
+    // ---- an IN-budget call made by a destructor during an unrelated contained unwind is a call like any other: it
+    // is admitted, it is counted, and it uses up its slot of the budget
+    for &arm in &[Arm::Ret, Arm::WhenRet, Arm::UnitAssign, Arm::UnsafeRet] {
+        let idx = special;
+        special += 1;
+        if !ctx.mine(idx) {
+            continue;
+        }
+        let class = format!("{:?}/N=2/in-budget-call-from-a-destructor-during-unwinding", arm);
+        out::intent(idx, &class, &J::new().s("crash_sig", "call-during-unwinding"));
+        N_STATIC.store(2, Ordering::SeqCst);
+        let mut inj = ip::lib(InjectorPP::new);
+        ip::lib(|| install(&mut inj, arm, make(arm)));
+        let first = call(arm, true);
+        struct OneCallInDrop(Arm, std::sync::mpsc::Sender<Result<i64, String>>);
+        impl Drop for OneCallInDrop {
+            fn drop(&mut self) {
+                let _ = self.1.send(call(self.0, true));
+            }
+        }
+        let (tx, rx) = std::sync::mpsc::channel();
+        let _ = std::panic::catch_unwind(move || {
+            let _g = OneCallInDrop(arm, tx);
+            panic!("USER: unrelated panic, contained by the test body");
+        });
+        let _ = panicobs::take();
+        let second = rx.try_recv().unwrap_or(Err("no call was made".into()));
+        unwinding_calls += 1;
+        let third = call(arm, true); // the budget of two is spent: this one is over it
+        let (dres, _) = panicobs::observe(|| ip::lib(|| drop(inj)));
+        let sig = if first != Ok(faked_value(arm)) || second != Ok(faked_value(arm)) {
+            "call-within-the-budget-not-admitted"
+        } else if third.is_ok() {
+            "call-past-the-budget-admitted-after-a-call-made-during-unwinding"
+        } else if dres.is_ok() {
+            "no-exit-panic-although-count-differs"
+        } else {
+            ""
+        };
+        if call(arm, true) != Ok(orig_value(arm)) {
+            out::outcome(idx, &class, Verdict::Violated, "original-not-back", &J::new());
+            std::process::exit(75);
+        }
+        out::outcome(idx, &class, if sig.is_empty() { Verdict::Held } else { Verdict::Violated }, sig, &J::new().s("calls", &format!("{:?} {:?} {:?}", first, second, third)).s("exit", &dres.err().unwrap_or_else(|| "no-panic".into())));
+    }
+    // ---- two counted fakes of different fake! arms alive in one injector (two of them `unsafe extern "C"` arms):
+    // each has its own count - exactly N calls to each, nothing is rejected and the scope exit is silent; one call
+    // short on ONE of them, and the scope exit says so
+    {
+        let pair_names = ["fn/returns", "fn/when+returns", "unsafe extern C/returns", "unsafe extern C/when+returns"];
+        let arm_pair = |inj: &mut InjectorPP, which: usize, n: usize| {
+            PAIR_N[which].store(n, Ordering::SeqCst);
+            match which {
+                0 => inj.when_called(injectorpp::func!(fn (tgt_b)(i32) -> i32)).will_execute(injectorpp::fake!(func_type: fn(_a: i32) -> i32, returns: 55, times: PAIR_N[0].load(Ordering::SeqCst))),
+                1 => inj.when_called(injectorpp::func!(fn (tgt_a)(i32) -> i32)).will_execute(injectorpp::fake!(func_type: fn(a: i32) -> i32, when: a == 7, returns: 107, times: PAIR_N[1].load(Ordering::SeqCst))),
+                2 => inj.when_called(injectorpp::func!(unsafe{} extern "C" fn (tgt_g)(i32) -> i32)).will_execute(injectorpp::fake!(func_type: unsafe extern "C" fn(_a: i32) -> i32, returns: 70, times: PAIR_N[2].load(Ordering::SeqCst))),
+                _ => inj.when_called(injectorpp::func!(unsafe{} extern "C" fn (tgt_h)(i32) -> i32)).will_execute(injectorpp::fake!(func_type: unsafe extern "C" fn(a: i32) -> i32, when: a == 7, returns: 71, times: PAIR_N[3].load(Ordering::SeqCst))),
+            }
+        };
+        let call_pair = |which: usize| -> Result<i64, String> {
+            std::panic::catch_unwind(move || match which {
+                0 => tgt_b(7) as i64,
+                1 => tgt_a(7) as i64,
+                2 => unsafe { tgt_g(7) as i64 },
+                _ => unsafe { tgt_h(7) as i64 },
+            })
+            .map_err(|p| panicobs::classify(&panicobs::payload_msg(&p)).to_string())
+        };
+        let want = [55i64, 107, 70, 71];
+        for a in 0..4usize {
+            for b in (a + 1)..4usize {
+                for short in [false, true] {
+                    let idx = special;
+                    special += 1;
+                    if !ctx.mine(idx) {
+                        continue;
+                    }
+                    let class = format!("two-counted-fakes-alive/{}+{}/{}", pair_names[a], pair_names[b], if short { "one-call-short" } else { "exact" });
+                    out::intent(idx, &class, &J::new().s("crash_sig", "two-counted-fakes"));
+                    let mut inj = ip::lib(InjectorPP::new);
+                    ip::lib(|| arm_pair(&mut inj, a, 2));
+                    ip::lib(|| arm_pair(&mut inj, b, 2));
+                    let mut res = Vec::new();
+                    // interleaved: a b a b (the last one left out when `short`)
+                    for (k, w) in [a, b, a, b].iter().enumerate() {
+                        if short && k == 3 {
+                            continue;
+                        }
+                        res.push((*w, call_pair(*w)));
+                    }
+                    let (dres, _) = panicobs::observe(|| ip::lib(|| drop(inj)));
+                    let all_ok = res.iter().all(|(w, r)| *r == Ok(want[*w]));
+                    let sig = if !all_ok {
+                        "call-within-its-own-budget-rejected-or-wrong-with-another-counted-fake-alive"
+                    } else if !short && dres.is_err() {
+                        "exit-panic-although-count-matches"
+                    } else if short && dres.is_ok() {
+                        "no-exit-panic-although-count-differs"
+                    } else {
+                        ""
+                    };
+                    out::outcome(idx, &class, if sig.is_empty() { Verdict::Held } else { Verdict::Violated }, sig, &J::new().s("calls", &format!("{:?}", res)).s("exit", &dres.err().unwrap_or_else(|| "no-panic".into())));
+                }
+            }
+        }
+    }
+    // ---- a refused installation (contained by the test body) leaves the expectations of the fakes installed before it
+    // alone: a counted fake, then a refused uncounted / counted fake!, then one call too few - the exit says so
+    for &arm in &[Arm::Ret, Arm::WhenRet] {
+        for refused_is_counted in [false, true] {
+            let idx = special;
+            special += 1;
+            if !ctx.mine(idx) {
+                continue;
+            }
+            let class = format!("{:?}/N=2/refused-{}-fake-after-it/one-call-short", arm, if refused_is_counted { "counted" } else { "uncounted" });
+            out::intent(idx, &class, &J::new().s("crash_sig", "refused-after-counted"));
+            N_STATIC.store(2, Ordering::SeqCst);
+            let mut inj = ip::lib(InjectorPP::new);
+            ip::lib(|| install(&mut inj, arm, make(arm)));
+            let refused = std::panic::catch_unwind(std::panic::AssertUnwindSafe(|| {
+                if refused_is_counted {
+                    inj.when_called(injectorpp::func!(fn (tgt_e)(i32) -> i32)).will_execute(injectorpp::fake!(func_type: fn(_a: i64) -> i32, returns: 1, times: 1));
+                } else {
+                    inj.when_called(injectorpp::func!(fn (tgt_e)(i32) -> i32)).will_execute(injectorpp::fake!(func_type: fn(_a: i64) -> i32, returns: 1));
+                }
+            }))
+            .is_err();
+            let _ = panicobs::take();
+            let one = call(arm, true);
+            let (dres, _) = panicobs::observe(|| ip::lib(|| drop(inj)));
+            let sig = if !refused {
+                "" // whether it is refused is C09's business
+            } else if one != Ok(faked_value(arm)) {
+                "call-within-the-budget-not-admitted"
+            } else if dres.is_ok() {
+                "no-exit-panic-although-count-differs"
+            } else {
+                ""
+            };
+            if call(arm, true) != Ok(orig_value(arm)) {
+                out::outcome(idx, &class, Verdict::Violated, "original-not-back", &J::new());
+                std::process::exit(75);
+            }
+            out::outcome(idx, &class, if sig.is_empty() { Verdict::Held } else { Verdict::Violated }, sig, &J::new().b("the_later_installation_was_refused", refused).s("exit", &dres.err().unwrap_or_else(|| "no-panic".into())));
         }
     }
     // ---- the verdict of a lifetime is computed before the next lifetime of the same call site can start:
